@@ -38,7 +38,17 @@ func (Prop) Rule() string {
 		"ecdh.NewPrivateKey / sm2.NewPrivateKey / sm2.NewPrivateKeyFromInt on all scalars x encodings and on -1..-70 (accept iff 32 bytes and 1<=d<=n-2; d=n-1 may go either way for ecdh; public key = [d]G), ecdh.PrivateKey.ECDH = x([d]Q). " +
 		"Decoders (Unmarshal, UnmarshalCompressed, sm2.NewPublicKey, ecdh.P256().NewPublicKey, IsOnCurve): per point every first byte 0..255 on the 65-, 33- and 1-byte bodies, every length 0..70 (truncated / zero-, ff- and self-extended), " +
 		"x or y replaced by p, p+coordinate, 2^256-1, coordinate+-1, every single-bit flip of x and y, swapped coordinates; accept iff canonical encoding of an on-curve point in a form the decoder documents; decoded value exact; re-encoding is the identity. " +
-		"distinct_nontrivial counts distinct (operation, scalar family, length class, point) classes plus decoder mutation classes."
+		"distinct_nontrivial counts distinct (operation, scalar family, length class, point) classes plus decoder mutation classes. " +
+		"Widening in the generic input dimensions (widen*.go; oracles: the specification oracles above, caller memory unchanged, same call gives the same answer, documented 'receiver is unchanged'): " +
+		"place/ - every byte-slice argument (scalars of ScalarBaseMult/ScalarMult/CombinedMult and of the internal point type, point encodings of the five decoders, private-key bytes of ecdh/sm2 NewPrivateKey, operands of P256OrdInverse/P256OrdMul/ImplicitSig) in 10 placements: own array with cap=len, ending at a PROT_NONE page, dirty spare capacity of 1 byte / up to a total of 31, 32, 65 bytes / 64 bytes, all arguments of the call back to back in one record with dirty slack in both memory orders, odd start address, one slice for several arguments; every call twice, all memory compared afterwards. " +
+		"own/ - every returned *big.Int (whole backing array), byte slice (whole capacity) and key field is overwritten by the harness after comparison, then the call is repeated and a later result is overwritten while an earlier one is re-read; big.Int arguments carry dirty spare words and are compared word by word; curve parameters and [1]G re-checked afterwards. " +
+		"ctorarg/ - slices and integers given to ecdh/sm2 NewPrivateKey, NewPrivateKeyFromInt, NewPublicKey and SM2P256Point.SetBytes are unchanged by the constructor, then zeroed / set to ff / reused for the next key; the object (incl. the lazily computed ecdh public key, computed before or after the overwrite) keeps answering. " +
+		"integrity/ - refused SetBytes (14 invalid classes x 3 points) and wrong-length ScalarMult/ScalarBaseMult on a receiver holding each point expression leave the receiver unchanged and usable; every decoder on one buffer: invalid, repaired in place, broken again, repaired again, each call twice. " +
+		"history/ - every internal operation (Set, SetGenerator, SetBytes, Add over 6x6 operands, Double, ScalarMult, ScalarBaseMult over 12 scalars) with a receiver that already holds each point expression; every ordered pair of 25 representative public calls incl. failing ones as a;b;a; every sequence of three (key, operation) steps over two fresh ecdh keys; two internal points updated alternately by a 96-step program. " +
+		"longscalar/ - scalars of 41..1024 bytes (thorough: every length 41..140 and up to 4096) x 9 contents (zero-padded 1 / n-1 / n+1, all ff, top bit only, n*2^k, n*2^k+1, n-1 repeated, SM3 chain) through ScalarBaseMult, ScalarMult, CombinedMult (either or both scalars), refused by the key constructors. " +
+		"variant/ - sm2.PublicKeyToECDH on every alphabet point and 8 invalid variants of each, (*sm2.PrivateKey).ECDH() on the scalar alphabet (values with leading zero bytes as a class), SM2P256Point.Select over all pairs x cond x aliasing, nil scalars, Equal of key objects, purego-only Negate. " +
+		"ordfield-unreduced/ - operands in [n, 2^256) for P256OrdInverse / P256OrdMul (error, or a value congruent to the exact result). " +
+		"bigmod/ - internal/bigmod (the scalar arithmetic of sm2 signing) for the moduli n and p: full product of a boundary alphabet of about 60 (quick) / 70 (thorough) values for Add/Sub/Mul/Equal/CmpGeq and a three-step chain, sum and difference classes, aliased operands, SetBytes/SetOverflowingBytes acceptance and values incl. [m, 2^256), SubOne, SetUint, predicates, Exp (m-2 and 6 other exponents), ExpShortVarTime, InverseVarTime, Mod of double-width products, against math/big."
 }
 func (Prop) Assumptions() []string {
 	return []string{
@@ -47,6 +57,7 @@ func (Prop) Assumptions() []string {
 		"only affine (z=1) inputs can be presented through the public APIs; Jacobian/projective intermediate representations are reached only inside the scalar multiplications",
 		"this tree uses 6-bit Booth windows (43 windows) in the assembly AND the purego backend; the 5-bit/4-bit window families of the design are enumerated anyway",
 		"dispatch tiers reachable on this amd64 host only (ADX/BMI2 asm, plain asm, AVX2/non-AVX2 table select, purego fiat); arm64/s390x/ppc64le assembly is not covered",
+		"widening families: the finding keys of place/, own/, ctorarg/, integrity/, history/ name the operation and the placement / oracle, never the input; bigmod operands always satisfy the documented preconditions (reduced, size of the modulus, odd modulus); operands >= n of the order-field helpers are judged only up to congruence because the helpers document no range; ImplicitSig's sPriv is not fed unreduced; negative arguments of Inverse, GenerateKey (property C12) and the SM2 key agreement built on ImplicitSig (property C08) are not enumerated here",
 		"quick tier: ScalarMult runs the full scalar alphabet on 3 of the 12 points (G and chain#0 with all encodings, smally#0 with one) and on the other 9 points the small/order families plus every 6th scalar of the rest with one encoding; CombinedMult sub-product 64x64; 64 instead of 256 chain scalars; ECDH against 1 instead of 3 points; 9 instead of 12 decoder seed points. thorough tier: everything as stated in the rule",
 	}
 }
@@ -530,6 +541,9 @@ func (Prop) Run(c *engine.Ctx) {
 			checkDecode(t, ref, decs, mutant{"canonical/33", neg.Compressed()})
 		}
 	})
+
+	// ---- widening in the generic input dimensions (widen*.go) ------------------------------------------
+	runWiden(c, pts, scalars)
 }
 
 // subAlphabet picks n scalars for the CombinedMult grid: the edge values first, then an even stride through
